@@ -7,5 +7,8 @@ for id in $(python3 -c "import json; print(' '.join(c['property_id'] for c in js
   echo "$out" | grep -E "^property |VIOLATION|gvc:" | cut -c1-160
   [ $code -ne 0 ] && rc=1
 done
-if [ "$1" = "all" ]; then python3 selftest/run.py | grep -v "^caught" ; fi
+if [ "$1" = "all" ]; then
+  python3 selftest/run.py | grep -v "^caught"
+  python3 selftest/run_harmless.py | grep -v "^silent  \|known limit"
+fi
 exit $rc
